@@ -97,6 +97,17 @@ func extractLocks(repo string, fx *Facts) {
 				}
 			}
 			facts = append(facts, lockFact{fd.Name.Name, lockPos >= 0 && deferOK && lockPos < firstQueuePos, queueCalls, p.pos(fd)})
+			if fd.Name.Name == "ScheduleJob" {
+				// the suspended flag of the job (changed in place by PauseJob/ResumeJob) and the trigger are consulted under the lock
+				first := -1
+				ast.Inspect(fd.Body, func(n ast.Node) bool {
+					if sel, ok := n.(*ast.SelectorExpr); ok && (sel.Sel.Name == "Suspended" || sel.Sel.Name == "NextFireTime") && first < 0 {
+						first = int(sel.Pos())
+					}
+					return true
+				})
+				fx.Extra["scheduleReadsUnderLock"] = lockPos >= 0 && first > lockPos
+			}
 		}
 	}
 	fx.Extra["locks"] = facts
@@ -112,5 +123,7 @@ func renderLocks(fx *Facts) string {
 		rows = append(rows, fmt.Sprintf("(%q, %v, %s)", f.Method, f.Locked, leanStrList(f.QueueCalls)))
 	}
 	return "namespace Generated.Locks\n/-- (method of StdScheduler that touches the queue, whole queue access inside Lock(); defer Unlock(), queue calls in source order) -/\n" +
-		"def table : List (String × Bool × List String) := [" + strings.Join(rows, ",\n  ") + "]\nend Generated.Locks\n"
+		"def table : List (String × Bool × List String) := [" + strings.Join(rows, ",\n  ") + "]\n" +
+		fmt.Sprintf("/-- ScheduleJob reads the job's suspended flag and asks the trigger after taking the lock -/\ndef scheduleReadsUnderLock : Bool := %v\n", fx.Extra["scheduleReadsUnderLock"] == true) +
+		"end Generated.Locks\n"
 }
